@@ -428,6 +428,10 @@ class _Run:
             w.contents[i] = (new.w, w.contents[i][1])
             n.kids[i] = new
             return "replace"
+        if t == "ListBox" and op.get("sf") is not None:
+            # the application scrolls the list itself (ListBox.shift_focus, a documented method)
+            w.shift_focus((COLS[op.get("c", 3) % len(COLS)], ROWS[op.get("r", 2) % len(ROWS)]), int(op["sf"]))
+            return "shift_focus"
         if t == "ListBox":
             body = n.aux
             if m % 4 == 0:
@@ -698,7 +702,41 @@ class CacheEngine(Engine):
     def rand_path(self, rng: random.Random) -> list[int]:
         return [rng.randrange(4) for _ in range(rng.choice([0, 0, 1, 1, 2, 3]))]
 
+    def gen_pager(self, rng: random.Random) -> dict:
+        """A pager: a ListBox of a few items some of which are taller than the view, paged and scrolled at one size with
+        every frame kept alive (as a screen keeps the last one) - the list's scroll position is the only thing that
+        changes between frames."""
+        long_text = "\n".join(f"line {i} of a long paragraph" for i in range(rng.choice([6, 14, 30])))
+        kids = []
+        for _ in range(rng.randint(1, 3)):
+            q = rng.random()
+            if q < 0.6:
+                kids.append({"w": "Text", "text": long_text if rng.random() < 0.8 else "short", "wrap": rng.choice(["space", "any"]), "align": "left"})
+            elif q < 0.8:
+                kids.append({"w": "Button", "label": "ok"})
+            else:
+                kids.append({"w": "Edit", "caption": "", "text": long_text.replace("\n", " "), "multiline": True})
+        tree = {"w": "ListBox", "kids": kids, "fw": rng.random() < 0.7}
+        if rng.random() < 0.3:
+            tree = {"w": rng.choice(["AttrMap", "LineBox", "Padding"]), "kids": [tree], "left": 1, "right": 0}
+        c0, r0 = rng.choice([2, 3, 4]), rng.randrange(len(ROWS))
+        ops = [{"op": "render", "path": [], "c": c0, "r": r0, "focus": True, "hold": True}]
+        for _ in range(rng.randint(2, 10)):
+            q = rng.random()
+            if q < 0.7:
+                ops.append({"op": "key", "k": KEYS.index(rng.choice(["page down", "page down", "page up", "down", "up", "home", "end"])), "c": c0, "r": r0})
+            elif q < 0.85:
+                ops.append({"op": "mutate", "path": [0] if tree["w"] != "ListBox" else [], "m": 0, "t": 0, "i": 0, "sf": rng.choice([-5, -2, -1, 0, 1, 2]), "c": c0, "r": r0})
+            else:
+                ops.append({"op": "mouse", "x": rng.randrange(9), "y": rng.randrange(10), "c": c0, "r": r0})
+            if rng.random() < 0.8:
+                ops.append({"op": "render", "path": [], "c": c0, "r": r0, "focus": True, "hold": True})
+        ops.append({"op": "render", "path": [], "c": c0, "r": r0, "focus": True})
+        return {"tree": tree, "ops": ops}
+
     def generate(self, rng: random.Random, tier: str) -> dict:
+        if rng.random() < 0.06:
+            return self.gen_pager(rng)
         tree = self.gen_tree(rng, "box" if rng.random() < 0.75 else "flow", 3, [12])
         ops = []
         c0, r0 = rng.randrange(len(COLS)), rng.randrange(len(ROWS))
